@@ -248,7 +248,10 @@ _ADD = {
          "when_all / stop_when / when_any stores) are events of the model with their own life-cycle key (KVal): the balance / exactly-once / nothing-after-"
          "destruction theorems cover them for ALL expressions and scripts, and the K2v2 tie compares every store construction/destruction with the real code."),
  "C04": (" Fault probe (direct monitor, harness/k3_c04_probe.cpp): stop_on_request over 1-3 external tokens whose k-th callback registration throws: "
-         "no callback left on the receiver's token at completion. when_all_range / stop_when: see the RegElect unit (Properties_C04_elect.v) when installed."),
+         "no callback left on the receiver's token at completion; let_value_with_stop_token over inplace and wrapped receiver tokens, with and without a stop. "
+         "RegElect (Properties_C04_elect.v): for when_all_range and stop_when, ALL outcome lists (n = 0 included) and ALL schedules: the stop callback on the "
+         "receiver's token is deregistered at every delivery, nothing touches the operation after the delivery, a stop request is forwarded to the own source; "
+         "K1 lock-step with the real algorithms (71 k + 70 k schedules quick)."),
  "C09": (" The spawn fault sweep also hands the sender over as an lvalue of a type with a throwing copy and a noexcept move (every noexcept-specification "
          "on the nest() path must be computed for the copy)."),
  "C10": (" SrThunk now carries the continuation chosen by complete_and_choose_continuation: theorem C10_srthunk_resumes_own_result (whoever resumes, the "
@@ -271,5 +274,13 @@ _ADD["C13"] = (" SCalc now contains next_adapt_stream / cleanup_adapt_stream / a
                "delay) and via_stream / typed_via_stream / on_stream / delay DEFINED as the headers define them; every theorem holds over the enlarged grammar, plus: "
                "elements of next_adapt(then f) = map f; the scheduler streams yield exactly the source's elements; via completes after the hop, on_stream starts after it. "
                "The harness schedulers are inline and ignore stop (a cancelled hop is not modelled).")
+_ADD["C01"] = (" RegElect (Properties_C01_elect.v): the same election for when_all_range (incl. the empty range) and stop_when together with the registration / "
+               "deregistration of the stop callback, the own stop source, the start loop and the owner that destroys the operation: at most once, exactly once at "
+               "quiescence, not before every child finished / was started, for ALL outcome lists and schedules; tied by K1 drivers over the real algorithms. "
+               "Their documented RESULT and deadlock-freedom are monitored, not proved.")
+_ADD["C07"] = (" EpollTimers: io_epoll_context's timers (schedule_at, local and remote stop, update_timers, timerfd arming) run under schedule control with a "
+               "virtual clock against the executable model coq/Proto/EpollTimerDefs.v (lock-step, 12.5 k schedules quick) and a direct monitor (once, never early, "
+               "order, prompt done, no reference retained). PROOFS PARTIAL: the per-operation phase invariant is preserved by starter / remote-stopper / pop steps "
+               "(Properties_C07_epoll.v, *_partial); preservation by the I/O thread's own steps and the all-schedule theorems are not proved yet.")
 for _k, _v in _ADD.items():
     PROPS[_k]["text"] = PROPS[_k]["text"] + _v
